@@ -1,7 +1,7 @@
 SPECIFICATION Spec
 CONSTANTS
   Values <- ValuesF
-  Excs <- ExcsF
+  Excs <- ExcsFT
   CbKinds <- CbF
   SuccInner <- SuccF
   FailInner <- FailF
